@@ -94,8 +94,108 @@ def known_f21(entry):
 KNOWN = {"F21": known_f21, "F23": known_f21, "F24": known_f21}
 
 
+# ---------------------------------------------------------------- same project config, three entry points (real runs)
+CFG_DIMS = {
+    "cfg_disable_noqa": [None, "disable_noqa = True"],
+    "cfg_rules": [None, "rules = LT01,CP01,AM04"],
+    "cfg_exclude": [None, "exclude_rules = CP01"],
+    "cfg_warnings": [None, "warnings = LT01"],
+}
+INLINE = ["", "-- sqlfluff:rules:LT01\n", "-- sqlfluff:exclude_rules:LT01\n", "-- sqlfluff:rules:capitalisation.keywords:capitalisation_policy:upper\n"]
+NOQA = ["", " -- noqa: LT01", " -- noqa"]
+
+
+def _project(vals):
+    import os
+    import tempfile
+    d = os.path.realpath(tempfile.mkdtemp(prefix="c19_"))
+    body = "[sqlfluff]\ndialect = ansi\n" + "".join(v + "\n" for k, v in vals.items() if k in CFG_DIMS and v)
+    open(os.path.join(d, ".sqlfluff"), "w").write(body)
+    sql = vals["inline"] + "SELECT a  from b" + vals["noqa"] + "\n"
+    open(os.path.join(d, "q.sql"), "w").write(sql)
+    return d, sql
+
+
+def routes(vals, do_fix):
+    """(path route, stdin route, API route) results for one project; real CLI through click's CliRunner, cwd = project."""
+    import json
+    import os
+    import shutil
+    import sqlfluff
+    from click.testing import CliRunner
+    from sqlfluff.cli import commands as cmds
+    d, sql = _project(vals)
+    cwd = os.getcwd()
+    os.chdir(d)
+    try:
+        def run(args, inp=None):
+            try:
+                return CliRunner(mix_stderr=False).invoke(cmds.cli, args, input=inp)
+            except TypeError:
+                return CliRunner().invoke(cmds.cli, args, input=inp)
+        if not do_fix:
+            def viol(out):
+                return sorted((v["code"], v["start_line_no"], v["start_line_pos"], bool(v.get("warning"))) for f in json.loads(out) for v in f["violations"])
+            rp = run(["lint", "q.sql", "--format", "json"])
+            rs = run(["lint", "-", "--stdin-filename", "q.sql", "--format", "json"], sql)
+            api = sorted((v["code"], v["start_line_no"], v["start_line_pos"], bool(v.get("warning"))) for v in sqlfluff.lint(sql, config_path=".sqlfluff"))
+            return (viol(rp.stdout), rp.exit_code), (viol(rs.stdout), rs.exit_code), (api, None), sql
+        rp = run(["fix", "q.sql", "-f"])
+        fixed_p = open("q.sql").read()
+        rs = run(["fix", "-", "--stdin-filename", "q.sql"], sql)
+        api = sqlfluff.fix(sql, config_path=".sqlfluff")
+        return (fixed_p, rp.exit_code), (rs.stdout, rs.exit_code), (api, None), sql
+    finally:
+        os.chdir(cwd)
+        shutil.rmtree(d, ignore_errors=True)
+
+
+def judge_routes(vals, do_fix):
+    (p, cp), (s_, cs), (a, _), sql = routes(vals, do_fix)
+    what = "fix" if do_fix else "lint"
+    cfg = [v for k, v in vals.items() if k in CFG_DIMS and v]
+    if not (p == s_ == a) or cp != cs:
+        return (f"project .sqlfluff {cfg}, file {sql!r}: `sqlfluff {what}` by path -> {p!r} (exit {cp}); via stdin --stdin-filename -> "
+                f"{s_!r} (exit {cs}); Python API -> {a!r}")
+    return None
+
+
+def make_cfg_routes(do_fix):
+    def factory(excluded=frozenset()):
+        def harness(c):
+            from symlite.values import choose
+            vals = {k: choose(c, k, alts) for k, alts in CFG_DIMS.items() if not (do_fix and k == "cfg_warnings")}
+            vals["inline"] = choose(c, "inline", INLINE)
+            vals["noqa"] = choose(c, "noqa", NOQA)
+            if vals.get("cfg_disable_noqa") and vals["noqa"]:
+                c.witness("noqa_disabled_by_config")
+            if vals["inline"]:
+                c.witness("inline_directive")
+            return not judge_routes(vals, do_fix)
+        return harness
+    return factory
+
+
+def replay_cfg_routes(do_fix):
+    def rp(cex):
+        vals = {k: alts[int(cex.get(k, 0))] for k, alts in CFG_DIMS.items() if not (do_fix and k == "cfg_warnings")}
+        vals["inline"] = INLINE[int(cex.get("inline", 0))]
+        vals["noqa"] = NOQA[int(cex.get("noqa", 0))]
+        return judge_routes(vals, do_fix)
+    return rp
+
+
 def units(tier, seed):
-    return [
+    return [Unit(name=f"c19.config_routes_agree[{'fix' if do_fix else 'lint'}]",
+                 functions=["sqlfluff.cli.commands.lint/fix (path and stdin branches, get_config/get_linter_and_formatter overrides)",
+                            "sqlfluff.api.simple.lint/fix/get_simple_config", "Linter.lint_string/lint_paths"],
+                 bounds={"project .sqlfluff settings": {k: [a for a in v if a] for k, v in CFG_DIMS.items()}, "inline directive": INLINE,
+                         "noqa comment": NOQA, "sql": "SELECT a  from b"},
+                 make=make_cfg_routes(do_fix), replay=replay_cfg_routes(do_fix),
+                 stubs=["none: a real project directory per explored path, the real CLI through click's CliRunner with cwd = project"],
+                 outside=["settings not in the pool", "warnings setting in fix mode (known finding F23)"],
+                 witnesses_required=["noqa_disabled_by_config", "inline_directive"], sharded=True, timeout_s=900)
+            for do_fix in (False, True)] + [
         Unit(name="c19.fix_routes_agree", functions=["sqlfluff.cli.commands._paths_fix", "_stdin_fix", "sqlfluff.api.simple.fix", "_handle_unparsable"],
              bounds={"violation kinds/flags": "all subsets of 4 kinds x ignore x warning", "fix_even_unparsable": "both"},
              make=make_fix(), replay=replay,
